@@ -2,6 +2,7 @@ package checks
 
 import (
 	"bytes"
+	"context"
 	"encoding/json"
 	"fmt"
 	"net"
@@ -139,7 +140,10 @@ func c18Conf(c *fw.Case) (o fw.Outcome) {
 	defer os.RemoveAll(dir)
 	os.WriteFile(filepath.Join(dir, "config.yaml"), []byte(y), 0o644)
 	exe, _ := os.Executable()
-	cmd := exec.Command(exe, "conf")
+	ctx, cancel := context.WithTimeout(context.Background(), 2*time.Minute)
+	defer cancel()
+	cmd := exec.CommandContext(ctx, exe, "conf")
+	cmd.WaitDelay = 5 * time.Second
 	cmd.Dir = dir
 	var out bytes.Buffer
 	cmd.Stdout = &out
